@@ -288,7 +288,7 @@ def correspondence(ctx):
                 if impl == "old":
                     push("view_from_rich", n, st, guarded(lambda: _real_pair(v.copy(sliced=True), val)), dict(m, what="SeqView.copy(sliced=True)"))
                 else:
-                    push("view_copy_new", n, st, guarded(lambda: _real_pair(v.copy(sliced=True), val)), dict(m, what="SeqView.copy(sliced=True)"))
+                    push("view_copy_new_fixed", n, st, guarded(lambda: _real_pair(v.copy(sliced=True), val)), dict(m, what="SeqView.copy(sliced=True)"))
                 continue
             if impl == "old":
                 push("view_from_rich", n, st, guarded(lambda: _real_pair(v.copy(sliced=True), val)), dict(m, what="SeqView.copy(sliced=True)"))
@@ -296,10 +296,10 @@ def correspondence(ctx):
                 push("old", n, st, guarded(lambda: _real_pair(deserialise_object(json.loads(mk(v.copy()).to_json()))._seq, val)), dict(m, what="Sequence json"))
                 push("copy_old", n, st, guarded(lambda: _real_pair(mk(v.copy()).copy(sliced=True)._seq, val)), dict(m, what="Sequence.copy"))
             else:
-                push("view_copy_new", n, st, guarded(lambda: _real_pair(v.copy(sliced=True), val)), dict(m, what="SeqView.copy(sliced=True)"))
+                push("view_copy_new_fixed", n, st, guarded(lambda: _real_pair(v.copy(sliced=True), val)), dict(m, what="SeqView.copy(sliced=True)"))
                 mk = lambda vv: text_mt.make_seq(seq=vv, name="s")
                 push("new", n, st, guarded(lambda: _real_pair(deserialise_object(json.loads(mk(v.copy()).to_json()))._seq, val)), dict(m, what="Sequence json"))
-                push("copy_new", n, st, guarded(lambda: _real_pair(mk(v.copy()).copy(sliced=True)._seq, val)), dict(m, what="Sequence.copy"))
+                push("copy_new_fixed", n, st, guarded(lambda: _real_pair(mk(v.copy()).copy(sliced=True)._seq, val)), dict(m, what="Sequence.copy"))
         # SeqDataView (sequence inside a new-style collection); offset is always 0 there
         if n > 0:
             sd = new_alignment.SeqsData(data={"a": parent}, alphabet=alpha)
@@ -315,10 +315,26 @@ def correspondence(ctx):
                 rd = dict(seq=_idx(rd["seq"]), step=rd["step"], offset=rd["offset"])
             push("dataview_rich", n, st, rd, dict(meta, impl="sdv", what="SeqDataView.to_rich_dict"))
 
+    # _coerce_to_seqview(SeqView, ..., annotation_offset) on its own: the ValueError branch (view offset AND annotation offset)
+    # is no longer reachable through the repaired copy/JSON routes, so it is tied directly (both modules)
+    for n, off, aoff in itertools.product([0, 3, 6], [0, 2, 7], [0, 1, 5]):
+        for impl in ("old", "new"):
+            if impl == "old":
+                v = sequence.SeqView(seq=_parent(n), offset=off)
+                f = lambda: _vstate(sequence._coerce_to_seqview(v, "s", True, None, aoff))
+            else:
+                v = new_sequence.SeqView(seq=_parent(n), alphabet=alpha, offset=off)
+                f = lambda: _vstate(new_sequence._coerce_to_seqview(v, "s", alpha, aoff))
+            st = _vstate(v)
+            reqs.append(("coerce", dict(annotation_offset=aoff, path="coerce", **{k: st[k] for k in ("start", "stop", "step", "offset", "seq_len")})))
+            reals.append(guarded(f))
+            metas.append(dict(n=n, init=(None, None, None), ops=[], offset=off, impl=impl, what=f"_coerce_to_seqview(annotation_offset={aoff})"))
     model = ctx.driver.batch(reqs)
-    # Three modelled branches mirror code that loses information (see the `_partial` / `_counter` theorems).  If the
-    # implementation is repaired, it must then agree with the branch the full-strength theorem is about instead.
-    REPAIRED = {"view_copy_new": "view_from_rich", "copy_new": "copy_old", "dataview_rich": "view_rich"}
+    # The primary path is the model of the code as it is NOW.  new SeqView.copy / Sequence.copy were repaired in the repo
+    # (f9c946a7e): primary = viewCopyNewRepaired / seqCopyNewRepaired (theorem seq_copy_new_repaired_roundtrip), alternative =
+    # the pre-fix mirror (viewCopyNew / seqCopyNew, `_partial` + `_counter` theorems) so an unrepaired tree still ties.
+    # SeqDataView.to_rich_dict still loses information: primary = the mirrored defect, alternative = the repaired branch.
+    REPAIRED = {"view_copy_new_fixed": "view_copy_new", "copy_new_fixed": "copy_new", "dataview_rich": "view_rich"}
     alt_idx = [i for i, (c, rq) in enumerate(reqs) if rq["path"] in REPAIRED]
     alts = dict(zip(alt_idx, ctx.driver.batch([("rebase", dict(reqs[i][1], path=REPAIRED[reqs[i][1]["path"]])) for i in alt_idx])))
     for i, ((cmd, rq), real, mod, meta) in enumerate(zip(reqs, reals, model, metas)):
@@ -328,15 +344,13 @@ def correspondence(ctx):
             alt = alts[i]
             if rq["path"] == "dataview_rich" and isinstance(real, dict) and "seq" in real:
                 alt = dict(alt, offset=mod.get("offset"))
-            if rq["path"] == "view_copy_new" and isinstance(alt, dict) and "view" in alt and isinstance(real, dict) and "view" in real:
-                pass
             if real == alt:
-                bump(out, "repaired_branch", rq["path"])
+                bump(out, "repaired_branch" if rq["path"] == "dataview_rich" else "prefix_branch", rq["path"])
                 continue
         if real != mod:
             add_failure(out, "corr", f"re-basing model differs from {meta['impl']} {meta['what']}", dict(meta, view={k: rq[k] for k in ("start", "stop", "step", "offset", "seq_len")}, path=rq["path"]), mod, real, confirmed=False)
             continue
-        if isinstance(real, dict) and ("err" in real or real.get("seq") or real.get("value")):
+        if isinstance(real, dict) and ("err" in real or real.get("seq") or real.get("value") or (rq["path"] == "coerce" and real.get("offset"))):
             out["nontrivial"].add((rq["path"], meta["impl"], meta["n"], str(meta["init"]), str(meta["ops"]), meta["offset"]))
         bump(out, "result", "raises" if "err" in real else ("nonempty" if real.get("seq") else "empty"))
         if len(out["samples"]) < 6 and meta["ops"] and real.get("seq") and rq["step"] not in (1,) and out["evaluations"] % 97 == 0:
@@ -393,6 +407,34 @@ def correspondence(ctx):
         mreqs.append(("fmap", dict(spans=spans, parent_length=plen)))
         mreals.append(dict(built=fstate(m), json=fstate(j), pickle=fstate(p)))
         mmetas.append(dict(spans=spans, parent_length=plen))
+    # live map STATES through the current JSON route and pickle (FeatureState.roundtripJsonLive / roundtripPickle, theorems
+    # featurestate_json_live_roundtrip / featuremap_pickle_roundtrip): the state is read off the object AFTER a history
+    # (constructor, optionally zeroed() which shifts the spans in place), so it is not in constructor-argument form
+    for _ in range(ctx.budget(800, 15000)):
+        plen = rng.randint(0, 20)
+        spans = []
+        for _ in range(rng.randint(0, 4)):
+            if rng.random() < 0.25:
+                spans.append(dict(length=rng.randint(0, 5)))
+            else:
+                a = rng.randint(0, 20)
+                e = rng.choice([None, rng.randint(0, 20)])
+                spans.append(dict(start=a, end=e, tidy_start=rng.random() < 0.2, tidy_end=rng.random() < 0.2, reverse=rng.random() < 0.3))
+        m = FeatureMap(spans=[_mk_span(d) for d in spans], parent_length=plen)
+        hist = "built"
+        if rng.random() < 0.6 and any("length" not in d for d in spans):
+            try:
+                m = m.zeroed()
+                hist = "zeroed"
+            except Exception:
+                pass
+        live = fstate(m)
+        j = FeatureMap.from_rich_dict(json.loads(json.dumps(m.to_rich_dict())))
+        p = pickle.loads(pickle.dumps(m))
+        mreqs.append(("fstate", dict(spans=live["spans"], parent_length=live["parent_length"], length=live["length"])))
+        mreals.append(dict(json_live=fstate(j), pickle=fstate(p)))
+        mmetas.append(dict(spans=live["spans"], parent_length=live["parent_length"], history=hist))
+        bump(out, "fstate_history", hist)
     for (cmd, rq), real, mod in zip(mreqs, mreals, ctx.driver.batch(mreqs)):
         out["evaluations"] += 1
         bump(out, "path", cmd)
